@@ -144,9 +144,9 @@ func (w *World) runStage(st *Stage) bool {
 			}
 		}
 		// a system whose requests keep growing (say, an annotation that doubles with every
-		// sync) exhausts memory long before the step budget: 200 MB of recorded request
+		// sync) exhausts memory long before the step budget: 48 MB of recorded request
 		// and hook bodies count as the budget, too
-		if st.Steps == 0 && (ss.steps >= max || w.recordedBytes() > 200<<20) {
+		if st.Steps == 0 && (ss.steps >= max || w.recordedBytes() > 48<<20) {
 			w.budget = true
 			w.budgetAt = st.Name
 			if st.OnBudget != nil {
